@@ -3,6 +3,7 @@ import Csproto.Model.GenDec
 import Csproto.Proofs.GenRecords
 import Csproto.Proofs.GenNested
 import Csproto.Bridge.Templates
+import Csproto.Bridge.Dispatch
 /-
   C07 — Unknown fields survive Unmarshal followed by Marshal.
 
@@ -69,6 +70,19 @@ theorem marshal_result_owned_by_caller :
     `Unmarshal` calls in the middle of its loop (extension arms) never mentions a message's unknown-field storage -/
 theorem only_generated_code_touches_retained_bytes : Generated.shimUnknownStoreMentions = 0 :=
   Bridge.Templates.shim_leaves_unknown_store_alone
+
+/-- a child message whose type this plug-in run has no generated code for (a well-known type, a type of a file
+    generated without fast-marshal code) is handed WHOLE to its own runtime: `Encoder.EncodeNested`, `csproto.Size`
+    and `csproto.Marshal` choose what to call by CAPABILITY alone (the interfaces a value implements, probed in this
+    order) and never by concrete message type — no message type is sized or written field by field by the
+    hand-written package, so the unknown fields such a child holds are its runtime's to count and to re-emit (that
+    the runtimes do: oracle, unknown fields inside runtime-served children at every nesting position) -/
+theorem nested_children_dispatched_by_capability :
+    Generated.EncodeNested_arms =
+        ["MarshalerTo:Size,EncodeTag,EncodeVarint,.MarshalTo", "Marshaler:.Marshal,.EncodeBytes", "default:Marshal,.EncodeBytes"] ∧
+    Generated.Size_probes = ["Sizer:.Size", "ProtoV1Sizer:.XXX_Size", "proto.Message:proto.Size"] ∧
+    Generated.Marshal_probes = ["Marshaler:.Marshal", "ProtoV1Marshaler:.XXX_Size,.XXX_Marshal", "proto.Message:proto.Marshal"] :=
+  ⟨Bridge.encodeNested_arms_ok, Bridge.size_probes_ok, Bridge.marshal_probes_ok⟩
 
 /-- a second `Marshal` of the same message yields the same bytes (the model's `marshal` is a function of the
     message contents; with `marshal_result_owned_by_caller` this is "re-emitted by the NEXT Marshal" for every
